@@ -22,7 +22,9 @@ RULE = ("Hypothesis draws nested plain values (None, bool, int incl. >2**64, fin
         "relative float steps, one char, NFC/NFD twin, length +-1, key added/removed/renamed, element dropped / "
         "duplicated / swapped), or a variant with a non-plain member (Decimal, Fraction, complex, tuple, set, bytearray, "
         "non-v4 UUID, time, ..., Nil, function, object, Mapping / Sequence types that are not dict / list, compiled "
-        "regex) alone or nested, or the same container object referenced twice inside one value. distinct = canonical "
+        "regex; `...` as a dict key, with a plain member or as the `...: ...` entry of schema notation) alone or nested, or a "
+        "defaultdict / Counter holding the value's content minus one key whose member equals what the mapping invents for an "
+        "absent key, or the same container object referenced twice inside one value. distinct = canonical "
         "JSON of the case; non-trivial = the perturbation (or the non-plain member) lies below the top level, or the "
         "value shares a sub-object")
 ASSUMPTIONS = [
